@@ -1228,11 +1228,19 @@ func (r *Runner) writeTable(ops []Op) (string, error) {
 		return "", err
 	}
 	path := fmt.Sprintf("ext/%06d.sst", r.extN)
-	f, err := r.FS.Create(path, vfs.WriteCategoryUnspecified)
-	if err != nil {
+	if err := WriteSST(r.FS, path, r.Opts.MakeWriterOptions(0, r.fmv().MaxTableFormat()), ops); err != nil {
 		return "", err
 	}
-	wopts := r.Opts.MakeWriterOptions(0, r.fmv().MaxTableFormat())
+	return path, nil
+}
+
+// WriteSST writes the ops (any order; they are sorted per key kind) as one
+// sstable suitable for DB.Ingest and syncs it.
+func WriteSST(fs vfs.FS, path string, wopts sstable.WriterOptions, ops []Op) error {
+	f, err := fs.Create(path, vfs.WriteCategoryUnspecified)
+	if err != nil {
+		return err
+	}
 	w := sstable.NewWriter(objstorageprovider.NewFileWritable(f), wopts)
 	var pts, rds, rks []Op
 	for _, o := range ops {
@@ -1258,12 +1266,12 @@ func (r *Runner) writeTable(ops []Op) (string, error) {
 			err = w.Merge([]byte(o.A), o.Value())
 		}
 		if err != nil {
-			return "", fmt.Errorf("sstable writer %s: %v", o, err)
+			return fmt.Errorf("sstable writer %s: %v", o, err)
 		}
 	}
 	for _, o := range rds {
 		if err := w.DeleteRange([]byte(o.A), []byte(o.B)); err != nil {
-			return "", fmt.Errorf("sstable writer %s: %v", o, err)
+			return fmt.Errorf("sstable writer %s: %v", o, err)
 		}
 	}
 	for _, o := range rks {
@@ -1276,13 +1284,13 @@ func (r *Runner) writeTable(ops []Op) (string, error) {
 			err = w.RangeKeyDelete([]byte(o.A), []byte(o.B))
 		}
 		if err != nil {
-			return "", fmt.Errorf("sstable writer %s: %v", o, err)
+			return fmt.Errorf("sstable writer %s: %v", o, err)
 		}
 	}
 	if err := w.Close(); err != nil {
-		return "", fmt.Errorf("sstable writer close: %v", err)
+		return fmt.Errorf("sstable writer close: %v", err)
 	}
-	return path, nil
+	return nil
 }
 
 // ---------------------------------------------------------------- steps
